@@ -281,6 +281,8 @@ struct decl {
 			/* alignment of object storage (may be stricter than type requires) */
 			int align;
 			enum storageduration storage;
+			/* where the object was tentatively defined */
+			struct location tentative;
 		} obj;
 		struct {
 			/* the function might have an "inline definition" (C11 6.7.4p7) */
